@@ -3,11 +3,11 @@ from vlib.props import prop
 prop("C18",
      harness="c18_threads",
      runs={
-         "quick": [dict(flavour="tsan", cases=60, max_shards=4, timeout=3000)],
+         "quick": [dict(flavour="tsan", cases=300, max_shards=5, timeout=3000)],
          "thorough": [dict(flavour="tsan", cases=1500, max_shards=4, timeout=8 * 3600)],
      },
-     min_nontrivial={"quick": 40, "thorough": 1000},
-     min_obs={"quick": {"lazy_runs": 20, "cache_runs": 20, "project_runs": 10, "objective_runs": 8, "scatter_runs": 8,
+     min_nontrivial={"quick": 200, "thorough": 1000},
+     min_obs={"quick": {"lazy_runs": 100, "cache_runs": 100, "project_runs": 50, "objective_runs": 40, "scatter_runs": 40,
                         "lazy_first_use_events": 20, "cache_inserts": 100, "bp_local_images_created": 10,
                         "dist_viewgram_events": 50},
               "thorough": {"lazy_runs": 1000, "objective_runs": 300}},
